@@ -1078,6 +1078,16 @@ pub fn adversary_mix(seed: u64) -> Plan {
             p.preexisting.push((r.below(n as u64) as u32, r.below(3) as u8));
         }
     }
+    // any peer may repeat its choke state (Unchoke while not choking, Choke while choking) while a
+    // piece is in flight
+    for (j, peer) in p.peers.iter_mut().enumerate() {
+        let mut h = Rng64::sub(seed ^ (j as u64 + 1), "adversary-redundant");
+        if h.chance(1, 6) {
+            for _ in 0..h.range(1, 3) {
+                peer.script.push(step(When::AfterRx { kind: "Request".into(), count: h.range(1, 8) as u32, plus: h.range(0, 400) }, Act::RepeatChokeState));
+            }
+        }
+    }
     let mut names: Vec<String> = p.peers.iter().map(|x| x.name.clone()).collect();
     // a tracker may list the same address more than once
     if r.chance(1, 6) {
@@ -1964,7 +1974,8 @@ pub fn keepalive(seed: u64) -> Plan {
                 _ => r.range(0, 119_000),
             }
         };
-        match r.below(7) {
+        let kind = r.below(7);
+        match kind {
             6 => {
                 // not even a handshake: total silence from the first byte on (keep-alives at most)
                 peer.hs = Hs::Absent;
@@ -1973,8 +1984,18 @@ pub fn keepalive(seed: u64) -> Plan {
                     peer.keepalive = Some(r.range(1000, 119_000));
                 }
             }
-            0 => {} // nothing after the handshake
-            1 => peer.keepalive = Some(r.range(1000, 119_000)),
+            0 | 1 => {
+                // nothing after the handshake (but keep-alives in one variant)
+                if kind == 1 {
+                    peer.keepalive = Some(r.range(1000, 119_000));
+                }
+                // and now and then it stops reading for more than an interval, so that the client's
+                // own keep-alive write blocks across a tick; it reads again before the third tick
+                let mut h = Rng64::sub(seed ^ (j as u64 + 1), "keepalive-stall");
+                if h.chance(1, 4) {
+                    peer.script.push(step(When::At(h.range(60_000, 118_000)), Act::Stall(h.range(125_000, 200_000))));
+                }
+            }
             2 => {
                 // chatty for the whole run
                 let mut t = r.range(0, 100_000);
@@ -2049,6 +2070,64 @@ pub fn keepalive(seed: u64) -> Plan {
     p
 }
 
+/// Declared-only torrents (no content): one peer advertises a few pieces, the last one among
+/// them, unchokes and never answers. What is observed is how long the client thinks each piece is
+/// (the hook at the assignment and the requests on the wire), for totals below and above 2^32 and
+/// piece lengths that are not powers of two.
+pub fn phantom_piece(seed: u64) -> Plan {
+    let mut r = Rng64::sub(seed, "phantom-piece");
+    let total = *r.pick(&[
+        (1u64 << 32) + 12_345,
+        (1 << 32) + 1,
+        5_000_000_000,
+        (1 << 33) + 1,
+        (1 << 32) - 1,
+        3_000_000_000,
+        100_000_007,
+        (1 << 31) + 17,
+    ]) + r.below(1000);
+    let pl = *r.pick(&[3_000_001u64, 5_000_000, (1 << 24) + 1, 1_000_003, 1 << 22, 9_999_991]);
+    let mut g = simple_geometry(pl, total);
+    g.phantom = true;
+    if r.chance(1, 2) {
+        // several files, each below 4 GiB
+        let k = r.range(2, 4);
+        let mut left = total;
+        let mut files = Vec::new();
+        for i in 0..k {
+            let l = if i + 1 == k { left } else { (left / (k - i)).min(u32::MAX as u64 - r.range(0, 1000)) };
+            files.push(FileSpec { path: format!("f{}.bin", i), len: l });
+            left -= l;
+        }
+        g.single = false;
+        g.name = "bundle".into();
+        g.files = files;
+    }
+    let n = g.pieces();
+    let mut p = base_plan("phantom-piece", seed, g);
+    let mut peer = base_peer(0, n);
+    peer.essential = false;
+    peer.has = vec![false; n];
+    peer.has[n - 1] = true;
+    for _ in 0..r.range(0, 2) {
+        peer.has[r.usize_below(n)] = true;
+    }
+    peer.unchoke = Unchoke::OnInterested(r.range(1, 50));
+    // never answers (there is nothing to answer with)
+    peer.answer.delay_min = 1_000_000_000;
+    peer.answer.delay_max = 1_000_000_000;
+    peer.keepalive = None;
+    // chokes and unchokes once, so that more than one piece gets assigned
+    peer.strict_choke = true;
+    peer.script.push(step(When::AfterRx { kind: "Request".into(), count: 1, plus: 200 }, Act::Choke));
+    peer.script.push(step(When::AfterRx { kind: "Request".into(), count: 1, plus: 400 }, Act::Unchoke));
+    p.peers.push(peer);
+    good_tracker(&mut p, 1);
+    p.deadline_ms = 3_000;
+    p.stop_on_done = false;
+    p
+}
+
 pub fn smoke(seed: u64) -> Plan {
     let g = simple_geometry(32768, 100_000);
     let n = g.pieces();
@@ -2077,6 +2156,7 @@ pub fn generate(profile: &str, seed: u64) -> Option<Plan> {
         "choking" => choking(seed),
         "tracker-faults" => tracker_faults(seed),
         "keepalive" => keepalive(seed),
+        "phantom-piece" => phantom_piece(seed),
         _ => return None,
     })
 }
